@@ -1,7 +1,7 @@
 SPECIFICATION Spec
 CONSTANTS
-  Vary = {"lit", "callee", "mainpos", "keep"}
+  Vary = {"sh", "shk"}
   Fns = {"Println"}
-  Shs = {"-"}
+  Shs = {"-", "fmt"}
 INVARIANTS TypeOK Confluent ImportSound Export
 PROPERTIES Stable Terminates
